@@ -530,3 +530,14 @@ func (r *Run) addViolationStructural(site, what string) {
 		viol: &Violation{Site: site, What: what, Replay: map[string]any{"kind": "vc", "observation": what}, Outcome: "observed while executing the real Verify on the symbolic API (re-run the check to re-derive)"}})
 	r.mu.Unlock()
 }
+
+// addViolationWithReplay records a violation that was observed on the real code (no solver query),
+// together with the recipe that reproduces it.
+func (r *Run) addViolationWithReplay(site, what string, replay map[string]any, outcome string) {
+	r.mu.Lock()
+	r.done = append(r.done, obResult{ob: &Ob{Name: "observed/" + site, Family: "real-code-observation", Site: site}, res: smt.Result{Status: "concrete", Solver: "-"}, status: "violation",
+		viol: &Violation{Site: site, What: what, Replay: replay, Outcome: outcome}})
+	r.mu.Unlock()
+}
+
+func (r *Run) overTime() bool { return time.Since(r.t0) > r.budget() }
